@@ -32,7 +32,7 @@ def one(sid):
     shutil.rmtree(wt, ignore_errors=True)
     return sid, meta, res
 sids = sorted(s for s in os.listdir(SEEDED) if os.path.isdir(os.path.join(SEEDED, s)) and (not only or s in only or s[:3] in only))
-with ThreadPoolExecutor(8) as ex:
+with ThreadPoolExecutor(16) as ex:
     results = list(ex.map(one, sids))
 lines = ["# Seeded changes vs checks", "", "Produced by tools/run_seeds.py: each patch applied to a scratch copy of /repo HEAD, every claimed check run with --root.", "",
          "| seed | property | own check | caught by (rule:construct) | other checks that fire |", "|---|---|---|---|---|"]
